@@ -5,16 +5,24 @@
     starting from an empty archive or from one opened from valid bytes, every output equals the
     output of the finite-map machine [spec_run] and the final archive represents the final map.
 
-    Proved here ([..._partial]): the statement for every finite history over
-      {add, replace, remove, lookup, list, count}
-    from ANY archive value that represents a map (in particular the empty archive, [C04_empty], and —
-    by [Rep]'s definition — any opened archive whose tiles all resolve).  What is missing for the
-    full statement is the step "save+reopen preserves [Rep]", i.e. the composition theorem of C01
-    (from_reader (to_bytes p) represents the same map); that step is covered by the correspondence
-    run and the direct oracle (histories with saves, exhaustive to length 3/4, random to 600/5000
-    operations), not by a theorem yet.  Premise [hist_collision_free]: the 64-bit content hash does
-    not collide on the contents that occur ([collision_breaks_map] shows the premise is necessary). *)
-Require Import PM.Base PM.Oracles PM.TileManager PM.TileManagerProofs PM.Archive PM.History PM.HistoryProofs.
+    Proved here:
+    - [C04_refines_map_partial]: the statement for every finite history over {add, replace, remove, lookup,
+      list, count} from ANY archive value that represents a map (in particular the empty archive,
+      [C04_empty], and any opened archive whose tiles all resolve);
+    - [C04_save_reopen]: saving (sync or async, with or without leaf directories) and opening the written
+      bytes yields an archive that represents the SAME map, with the same metadata and settings (coordinates
+      quantized as C09 states) — built on C01's composition theorem;
+    - [C04_refines_map_saves_partial]: hence the statement for every finite history over
+      {add, replace, remove, lookup, list, count, save+reopen}, each save reporting success for both the
+      write and the reopen.
+    Premises: [collision_free] at every add — the 64-bit content hash does not collide on the contents that
+    occur ([C04_collision_breaks_map] shows the premise is necessary); at every save, [save_premises]
+    (sizes below the format's limits, a supported internal compression, JSON-object metadata) and the
+    success of the write itself (when leaf directories are needed, termination of the doubling loop is C06's
+    open part).  What is still missing for the full statement: the operation "open arbitrary valid bytes"
+    inside a history (C03's reader-meets-spec theorem); it is covered by the correspondence run and the
+    direct oracle (histories starting from foreign archives). *)
+Require Import PM.Base PM.Oracles PM.TileManager PM.TileManagerProofs PM.Archive PM.History PM.HistoryProofs PM.Float PM.Header PM.HeaderProofs PM.DirReader PM.ReopenProofs.
 From Coq Require Import Permutation.
 Open Scope N_scope.
 
@@ -37,6 +45,24 @@ Theorem C04_independence : forall cx p m o id', Rep cx p m -> map_op o = true ->
   view (p_tm (fst (step cx p o))) id' = view (p_tm p) id'.
 Proof. exact independence. Qed.
 
+(** save + reopen: the reopened archive represents the same map and carries the same settings *)
+Theorem C04_save_reopen : forall cx, codec_inv cx -> forall asy p m b,
+  Rep cx p m -> save_premises cx asy p m -> to_bytes cx asy p = Ok b ->
+  exists p', from_reader cx b full_range = Ok p' /\ Rep cx p' m /\
+    p_meta p' = p_meta p /\ p_ttype p' = p_ttype p /\ p_tcomp p' = p_tcomp p /\ p_icomp p' = p_icomp p /\
+    p_minz p' = p_minz p /\ p_maxz p' = p_maxz p /\ p_cz p' = p_cz p /\
+    p_min_lon p' = quantize_coord (p_min_lon p) /\ p_min_lat p' = quantize_coord (p_min_lat p) /\
+    p_max_lon p' = quantize_coord (p_max_lon p) /\ p_max_lat p' = quantize_coord (p_max_lat p) /\
+    p_clon p' = quantize_coord (p_clon p) /\ p_clat p' = quantize_coord (p_clat p).
+Proof. exact save_reopen_rep. Qed.
+
+(** histories that also save and reopen *)
+Theorem C04_refines_map_saves_partial : forall cx, codec_inv cx -> forall ops p m,
+  Rep cx p m -> forallb map_or_save ops = true -> hist_ok cx p m ops ->
+  Rep cx (fst (run cx p ops)) (fst (spec_run m ops)) /\
+  Forall2 out_rel (snd (run cx p ops)) (snd (spec_run m ops)).
+Proof. exact history_refines_saves. Qed.
+
 (** the empty archive represents the empty map (the hypotheses are satisfiable) *)
 Theorem C04_empty : forall cx b, Rep cx (pm_new b) [].
 Proof. exact rep_new. Qed.
@@ -51,4 +77,11 @@ Proof. vm_compute. reflexivity. Qed.
 Example C04_collision_breaks_map :
   let cx := mkCtx (comp ctx_id) (decomp ctx_id) (json_parse ctx_id) (fun _ => 0) (drop_tail ctx_id) in
   snd (run cx (pm_new None) [OAdd 7 [1]; OAdd 8 [2]; OGet 7]) = [RRes (Ok tt); RRes (Ok tt); RTile (Ok (Some [2]))].
+Proof. vm_compute. reflexivity. Qed.
+
+(** non-vacuity with saves: the outputs of a history with two saves (sync and async) are those of the map *)
+Example C04_example_saves :
+  let ops := [OAdd 7 [1;2]; OAdd 8 [1;2]; OSave false; OGet 7; OAdd 9 [3]; ORemove 7; OSave true; OGet 7; OGet 8; OGet 9; OCount] in
+  let p0 := mkPM TPng CNone CGzip 0 3 1 (of_Z 0) (of_Z 0) (of_Z 0) (of_Z 0) (of_Z 0) (of_Z 0) [123; 125] (tm_empty None) in
+  map (fun x => match x with RSaved (Ok _) (Ok tt) => RUnit | _ => x end) (snd (run ctx_id p0 ops)) = snd (spec_run [] ops).
 Proof. vm_compute. reflexivity. Qed.
